@@ -123,6 +123,37 @@ def linear_system_program(rng):
     return prog, goals, len(vs) <= 2 and extra >= 0.5
 
 
+def delay_line_program(rng):
+    """acyclic systems with delayed copies (x = y; y = w; w = c): closed forms that only hold from a later iteration on,
+    accumulators over products of delayed values, higher moments"""
+    k = rng.choice([2, 3, 3, 4])
+    chain = ["x", "y", "w", "v"][:k]
+    consts = rng.sample([1, 2, 3, 5, 7, -1], k)
+    init = [["assign", v, num(c)] for v, c in zip(chain, consts)] + [["assign", "z", num(0)]]
+    rng.shuffle(init)
+    copies = [["assign", chain[i], var(chain[i + 1])] for i in range(k - 1)]
+    last = rng.random()
+    if last < 0.5:
+        tail = ["assign", chain[-1], num(rng.choice([0, 2, 4]))]
+    elif last < 0.8:
+        tail = ["assign", chain[-1], ["choice", [[num(rng.choice([0, 1])), "1/2"], [num(rng.choice([2, 3])), None]]]]
+    else:
+        tail = ["assign", chain[-1], ["add", var(chain[-1]), num(1)]]
+    if rng.random() < 0.3:
+        copies.reverse()
+    r = rng.random()
+    if r < 0.5:
+        acc = ["assign", "z", ["add", var("z"), ["mul", var(chain[0]), var(chain[1])]]]
+    elif r < 0.8:
+        acc = ["assign", "z", ["add", var("z"), var(chain[0])]]
+    else:
+        acc = ["assign", "z", ["add", ["mul", num(rng.choice([2, "1/2"])), var("z")], var(chain[0])]]
+    body = copies + [tail]
+    body.insert(rng.choice([0, 0, len(body)]), acc)
+    goals = ["z", chain[0]] + (["z**2"] if rng.random() < 0.6 else []) + ([f"{chain[0]}*{chain[1]}"] if rng.random() < 0.4 else [])
+    return {"types": [], "init": init, "guard": ["true"], "body": body}, goals
+
+
 def categorical_program(rng):
     """top-level categorical assignments with >= 3 branches (the shape transform_categoricals rewrites), conditions on them"""
     k = rng.choice([3, 3, 4])
@@ -169,6 +200,10 @@ def _program_choice(rng):
         path = rng.choice(sorted(cor))
         goals = rng.sample(cor[path]["goals"], min(len(cor[path]["goals"]), rng.choice([1, 2, 2])))
         return {"path": path}, goals, path, None
+    if r < 0.3:
+        prog, goals = delay_line_program(rng)
+        text = render_program(prog)
+        return {"text": text}, rng.sample(goals, min(len(goals), 3)), "dly:" + hashlib.sha256(text.encode()).hexdigest()[:10], "linear"
     if r < 0.5:
         prog, goals, squares = linear_system_program(rng)
         text = render_program(prog)
